@@ -110,15 +110,15 @@ theorem EntInv_dlv {c : Cfg} (h : EntInv c) : EntInv c.dlv := by
 
 /-- the entries after a step: the old ones and, if the step created an entry, that one -/
 theorem ents_step (P : Prog) (c : Cfg) :
-    c.A.nextEid ≤ (outCfg (step P c)).A.nextEid ∧
+    c.A.nextEid ≤ (sOutCfg (step P c)).A.nextEid ∧
     ∃ e0 : Entry, e0.eid = c.A.nextEid ∧
-      ∀ e ∈ (outCfg (step P c)).ents, e ∈ c.ents ∨ (e = e0 ∧ (outCfg (step P c)).A.nextEid = c.A.nextEid + 1) := by
+      ∀ e ∈ (sOutCfg (step P c)).ents, e ∈ c.ents ∨ (e = e0 ∧ (sOutCfg (step P c)).A.nextEid = c.A.nextEid + 1) := by
   have hst := (step_stack P c).1
   rw [Prod.ext_iff] at hst
   obtain ⟨hs1, hs2⟩ := hst
   simp only at hs1 hs2
   -- entries of the new code
-  have hcode : ∀ e ∈ codeEnts (outCfg (step P c)).code, e ∈ c.ents ∨ e ∈ c.stackAfter.1 := by
+  have hcode : ∀ e ∈ codeEnts (sOutCfg (step P c)).code, e ∈ c.ents ∨ e ∈ c.stackAfter.1 := by
     rcases hc : c.code with _ | ⟨ins, rest⟩
     · rw [step_nil P c hc, hc]; simp [codeEnts]
     · obtain ⟨pushed, ⟨suf, hcd, hsuf⟩, hp⟩ := step_code P c ins rest hc
@@ -131,7 +131,7 @@ theorem ents_step (P : Prog) (c : Cfg) :
         · exact .inr h
       · have := codeEnts_suffix hsuf e he
         exact .inl (by simp only [Cfg.ents, hc, codeEnts, List.flatMap_cons, List.mem_append]; exact .inr (.inr this))
-  have hall : ∀ e ∈ (outCfg (step P c)).ents, e ∈ c.ents ∨ e ∈ c.stackAfter.1 := by
+  have hall : ∀ e ∈ (sOutCfg (step P c)).ents, e ∈ c.ents ∨ e ∈ c.stackAfter.1 := by
     intro e he
     simp only [Cfg.ents, List.mem_append] at he
     rcases he with he | he
@@ -178,7 +178,7 @@ theorem ents_step (P : Prog) (c : Cfg) :
     · exact .inl h'
     · exact .inl (hstack e (List.dropLast_subset _ h'))
 
-theorem EntInv_step {P : Prog} {c : Cfg} (h : EntInv c) : EntInv (outCfg (step P c)) := by
+theorem EntInv_step {P : Prog} {c : Cfg} (h : EntInv c) : EntInv (sOutCfg (step P c)) := by
   obtain ⟨hle, e0, h0, hents⟩ := ents_step P c
   refine ⟨?_, ?_, ?_⟩
   · intro e he
@@ -193,7 +193,7 @@ theorem EntInv_step {P : Prog} {c : Cfg} (h : EntInv c) : EntInv (outCfg (step P
     · rfl
   · have hst := (step_stack P c).1
     rw [Prod.ext_iff] at hst
-    have hs1 : (outCfg (step P c)).A.stack = c.stackAfter.1 := hst.1
+    have hs1 : (sOutCfg (step P c)).A.stack = c.stackAfter.1 := hst.1
     rw [hs1]
     have hlt : ∀ e ∈ c.A.stack, e.eid < c.A.nextEid := fun e he => h.lt e (by simp [Cfg.ents, he])
     have hdrop : (c.A.stack.dropLast.map (·.eid)).Nodup :=
